@@ -124,6 +124,11 @@ def gen_select_case(rng, complete_bias):
             d["format"] = gen_format(rng, i)
         if rng.random() < 0.7:
             d["rewrite"] = [gen_rule(rng, "%d.%d" % (i, k)) for k in range(rng.randint(0, 3))]
+            # a document may repeat, verbatim, a rule of an earlier document (or of itself): the merged list is the plain
+            # concatenation, duplicates included, in that order
+            earlier = [ru for dd in docs for ru in dd.get("rewrite", [])] + d["rewrite"]
+            if earlier and rng.random() < 0.35:
+                d["rewrite"].insert(rng.randint(0, len(d["rewrite"])), dict(rng.choice(earlier)))
         docs.append(d)
     if rng.random() < 0.5:
         # make the most general document complete so that the merge is usable
@@ -199,7 +204,9 @@ def run_select(chk, n):
 # rules stream
 
 PAYEES = ["Debit Card 1234 Migros Zurich", "MIGROS BASEL", "Coop-2041", "Wire Sent", "山田商店", "Visa 99 Hamachi Super",
-          "cashback", "Debit Card 77 山田商店", "Salary ACME AG", "ATM 五反田", "", "migros", "Visa 5 Migros Zurich"]
+          "cashback", "Debit Card 77 山田商店", "Salary ACME AG", "ATM 五反田", "", "migros", "Visa 5 Migros Zurich",
+          # several numbers / references in one text: two rules can capture DIFFERENT codes from it (the later rule's wins)
+          "Debit Card 1234 Migros REF:AB12CD", "Visa 99 Hamachi Super 2041", "Debit Card 7 Coop-2041 REF:ZZ9"]
 CATEGORIES = ["Buy", "Reinvest Shares", "Groceries", "Service stations", "Telecommunication services", "", "食費",
               "Card 42 Kiosk", "Migros"]
 TEXTS = ["Okanecard purchase 12.10 Migros Zurich", "Payment order 77", "Money Bank", "ACME AG", "Hamachi Super", "", "Coop-7",
@@ -209,7 +216,8 @@ PLAIN_PATTERNS = ["Migros", "migros", "coop", "Wire", "山田", "Super$", "^Debi
 CAPTURE_PATTERNS = [r"Debit Card (?P<code>\d+) (?P<payee>.*)", r"Visa (?P<code>[0-9]+) (?P<payee>.*)$",
                     r"(?P<payee>[A-Za-z]+)-(?P<code>[0-9]+)", r"^(?P<payee>[^ ]+) .*", r"(?P<payee>.*) Zurich",
                     r"(?P<payee>Migros)", r"ATM (?P<payee>.*)", r"(?P<code>[0-9]+)", r"(?P<payee>.*)", r"^(?P<payee>[A-Z]+) ",
-                    r"Card (?P<code>[0-9]+) (?P<payee>[^ ]*)", r"(?P<payee>Hamachi) Super"]
+                    r"Card (?P<code>[0-9]+) (?P<payee>[^ ]*)", r"(?P<payee>Hamachi) Super",
+                    r"REF:(?P<code>[A-Z0-9]+)", r" (?P<code>[0-9]+)$", r"-(?P<code>[0-9]+)"]
 EXPLICIT_PAYEES = ["Migros", "Grocery Shop", "Hamachi", "Taro and Jiro", "山田"]
 ACCOUNTS = ["Expenses:Grocery", "Expenses:Car:Gas", "Income:Salary", "Assets:Wire", "Expenses:Cash", "Income:Misc"]
 CODE_VALUES = ["PMNT", "ICDT", "RCDT", "AUTT", "OTHR"]
